@@ -7,6 +7,7 @@ package logic
 // error classifiers (error text -> coq/model/AvmFrame.v:ecode_N numbers).
 
 import (
+	"encoding/binary"
 	"errors"
 	"strings"
 
@@ -191,6 +192,33 @@ func vNewEnv(mode RunMode, lsv uint64, program []byte, args [][]byte, budget int
 	return &vEnv{ep: ep, ledger: cl, mode: mode, gi: 1}
 }
 
+// vNewEnvOpt is vNewEnv with caller-chosen consensus parameters and the proto's own budgets
+func vNewEnvOpt(mode RunMode, lsv uint64, program []byte, args [][]byte, tracer EvalTracer, opt func(p *config.ConsensusParams)) *vEnv {
+	txns := vSampleTxns(program, args)
+	proto := makeTestProto(func(p *config.ConsensusParams) {
+		p.LogicSigVersion = lsv
+		p.Application = true
+		opt(p)
+	})
+	ledger := NewLedger(nil)
+	vPopulate(ledger, txns[0].Txn)
+	cl := &vCountLedger{l: ledger}
+	var ep *EvalParams
+	if mode == ModeSig {
+		ep = NewSigEvalParams(txns, proto, ledger)
+	} else {
+		ep = NewAppEvalParams(transactions.WrapSignedTxnsWithAD(txns), proto, &transactions.SpecialAddresses{})
+		ep.Ledger = cl
+		ep.SigLedger = ledger
+		ep.pastScratch[0] = &scratchSpace{}
+		ep.TxnGroup[0].ConfigAsset = 100
+	}
+	ep.minAvmVersion = 0
+	ep.Trace = nil
+	ep.Tracer = tracer
+	return &vEnv{ep: ep, ledger: cl, mode: mode, gi: 1}
+}
+
 func (e *vEnv) remaining() int {
 	cx := EvalContext{EvalParams: e.ep, runMode: e.mode, txn: &e.ep.TxnGroup[e.gi]}
 	return cx.remainingBudget()
@@ -338,3 +366,26 @@ func vStackTerm(stack []stackValue, topk int) []interface{} {
 	}
 	return out
 }
+
+func vUvarint(x uint64) []byte {
+	var buf [binary.MaxVarintLen64]byte
+	n := binary.PutUvarint(buf[:], x)
+	return buf[:n]
+}
+
+
+func vVarint(x int64) []byte {
+	var buf [binary.MaxVarintLen64]byte
+	n := binary.PutVarint(buf[:], x)
+	return buf[:n]
+}
+
+
+func vCalls(cx *EvalContext) []interface{} {
+	out := make([]interface{}, 0, len(cx.callstack))
+	for i := len(cx.callstack) - 1; i >= 0; i-- {
+		out = append(out, cx.callstack[i].retpc)
+	}
+	return out
+}
+
